@@ -39,7 +39,7 @@ PROPS = {
         "channels": [{"cmd": "run-det"}, {"cmd": "run-bombs", "shards": 16}],
         "cone": None,
         "rule": "same stream as C03 with every detector called directly under recover on an exact-capacity copy and on a prefix of a poisoned larger buffer; a panic, a poison-dependent verdict, a nil result or a 20 s hang is a property failure",
-        "data_obligations": ["translation_agrees: the bodies of 26 loop-free function detectors, translated from the current source, equal the hand-written GoLite terms up to re-association", "every translated body passes the bounds analysis"],
+        "data_obligations": ["translation_agrees: the bodies of all 37 function detectors with a GoLite term (loops over literal tables and constant ranges unrolled, switches, masked comparisons, helpers inlined), translated from the current source, equal the hand-written terms up to a normalisation proved to preserve result and Panic behaviour", "comb_translation_agrees: for each of the 93 signatures built by prefix / offset / ftyp / jpeg2k, the combinator closure body in the current source instantiated with the literal arguments equals the model term", "every translated body passes the bounds analysis"],
         "proved": "soundness of the bounds analysis (a GoLite term that passes it never evaluates to Panic, for every input, limit and environment); regenerated obligation: every combinator instance of tree.go and every GoLite detector term passes the analysis; every node of the regenerated tree has a model; the offset-computing detectors (zipContains, CRX, matchOleClsid, Ppt, Matroska, Tar): checked transliterations in which every index / slice expression carries Go's run-time check never reach Panic, for any input (uint32 wrap-around and 64-bit int as in the code), and equal the total models; the model's Detect is total and returns a registered chain ending in the root for every input and limit",
         "not_proved": "the JSON scanner, NDJSON/CSV and the charset sniffers are modelled as total list functions in suffix-passing style (an index error is not representable); that the checked transliterations mirror the Go index expressions is by reading + verdict correspondence; crash- and hang-freedom on the real code is exercised (recover, poisoned capacity, hostile length fields, watchdog), not proved; stdlib calls are assumed not to panic",
         "assumptions": COMMON_ASSUME,
